@@ -149,6 +149,19 @@ def corr(ctx):
                             want = "flips"; ok = ok and set(yi.flatten().tolist()) <= {0, 1} and (changed == 0 if p == 0 else changed == nx if p == 1 else (nx < 100 or _chernoff_ok(changed, nx, p)))
                         ops.append(Op("bsc 0 0 0", "0", nontrivial=False, info={"site": "channels:%s.constant" % cname, "config": {"value": val, "shape": list(shape), "dtype": str(dtype), "p": p, "changed": changed, "of": nx, "expected": want}}, prop_ok=bool(ok)))
                         ctx.count("constant_inputs")
+    # ---- one channel object over several calls: the signalling format is a property of each input (a first block of all +1 - the BPSK
+    #      image of the zero word - must not fix the format of later blocks); deterministic extremes only
+    for cname, mk in (("BinarySymmetricChannel", BinarySymmetricChannel), ("BinaryZChannel", BinaryZChannel), ("BinaryErasureChannel", BinaryErasureChannel)):
+        for p in (0.0, 1.0):
+            ch = mk(p)
+            seq = [("ones", torch.ones(12)), ("bipolar", torch.tensor([1., -1., -1., 1., 1., -1., 1., -1., 1., 1., -1., -1.])), ("binary", torch.tensor([0., 1., 1., 0., 1., 0., 0., 0., 1., 1., 0., 1.])),
+                   ("bipolar", torch.tensor([-1., -1., 1., -1., 1., 1., -1., 1., 1., -1., 1., -1.])), ("zeros", torch.zeros(12))]
+            for call, (tag, x) in enumerate(seq):
+                y = ch(x)
+                fresh = mk(p)(x)
+                same = bool(torch.equal(y, fresh))
+                ops.append(Op("bsc 0 0 0", "0", nontrivial=False, info={"site": "channels:%s.object_history" % cname, "config": {"p": p, "call": call, "input": tag, "history": [t_ for t_, _ in seq[:call]], "got": ints(y.tolist()), "fresh_object": ints(fresh.tolist())}}, prop_ok=same))
+            ctx.count("channel_object_histories")
     # ---- large re-seeded runs: the transition law on the regenerated draws, symbol by symbol (vectorised oracle)
     nbig = 2_000_000
     for p in (1e-3, 0.37):
@@ -220,6 +233,10 @@ def search(ctx, mismatches, broken, prop_fail):
         if site.endswith(".rate"):
             out.append({"site": site, "config": cfg, "kind": "failing-input", "ops": [],
                         "what": "%s: %d events in %d symbols (rate %.6g) / %d adjacent event pairs - outside the Chernoff bound for independent events of the configured probability (false-alarm probability < 5e-10)" % (cfg.get("case"), cfg.get("events"), cfg.get("n"), cfg.get("rate"), cfg.get("adjacent_pairs"))})
+            continue
+        if site.endswith(".object_history"):
+            out.append({"site": site, "config": cfg, "kind": "failing-input", "ops": [],
+                        "what": "%s(p=%s): call %s on one object (earlier inputs: %s) with a %s input returns %s, a fresh object returns %s" % (site.split(":")[1].split(".")[0], cfg.get("p"), cfg.get("call"), cfg.get("history"), cfg.get("input"), cfg.get("got"), cfg.get("fresh_object"))})
             continue
         if site.endswith(".view") or site.endswith(".constant"):
             kind = "a non-contiguous %s view" % cfg.get("view") if site.endswith(".view") else "a constant input (every symbol = %s, shape %s)" % (cfg.get("value"), cfg.get("shape"))
